@@ -8,7 +8,7 @@ use nom::{
 
 use crate::input::Input;
 
-use super::error::{ErrorTree, ParserResult};
+use super::error::ErrorTree;
 
 #[allow(dead_code)]
 pub fn debug_result<'a, F>(
@@ -131,32 +131,29 @@ pub fn take_until_and_not<'a>(
     however_tag: &'a str,
 ) -> impl Parser<Input<'a>, Output = &'a str, Error = ErrorTree<'a>> {
     move |i: Input<'a>| {
-        fn recursive_until<'a>(
-            i: Input<'a>,
-            index: usize,
-            t1: &'a str,
-            t2: &'a str,
-        ) -> ParserResult<'a, &'a str> {
+        // (a loop, not a recursion: a string may hold any number of escaped quotes)
+        let mut index = 0;
+        loop {
             match (
-                (i.slice(index..)).find_substring(t1),
-                (i.slice(index..)).find_substring(t2),
+                (i.slice(index..)).find_substring(end_tag),
+                (i.slice(index..)).find_substring(however_tag),
             ) {
-                (None, _) => Err(Err::Error(ErrorTree::from_error_kind(
-                    i,
-                    ErrorKind::TakeUntil,
-                ))),
+                (None, _) => {
+                    return Err(Err::Error(ErrorTree::from_error_kind(
+                        i,
+                        ErrorKind::TakeUntil,
+                    )))
+                }
                 (Some(offset), None) => {
-                    Ok(i.take_split(index + offset)).map(|(rem, res)| (rem, res.into_inner()))
+                    return Ok(i.take_split(index + offset)).map(|(rem, res)| (rem, res.into_inner()))
                 }
                 // the end tag comes first: the exception further on belongs to something else
                 (Some(end), Some(offset)) if end < offset => {
-                    Ok(i.take_split(index + end)).map(|(rem, res)| (rem, res.into_inner()))
+                    return Ok(i.take_split(index + end)).map(|(rem, res)| (rem, res.into_inner()))
                 }
-                (Some(_), Some(offset)) => recursive_until(i, index + offset + t2.len(), t1, t2),
+                (Some(_), Some(offset)) => index += offset + however_tag.len(),
             }
         }
-        let res: ParserResult<'_, _> = recursive_until(i, 0, end_tag, however_tag);
-        res
     }
 }
 
